@@ -13,10 +13,12 @@ import (
 // mode without Set). Invariant on every execution: deep snapshot before = after.
 
 type c04Job struct {
-	// big[di]: a 5-node document of the thorough tier; the depth-3 expressions (units from
-	// firstTriple on) are evaluated on all the other documents only
+	// big[di]: a 5-node document of the thorough tier, or a wide / big document; the depth-3
+	// expressions (units from firstTriple on) are evaluated on all the other documents only
 	big         []bool
 	firstTriple int
+	nAtoms      int
+	tier        string
 	queries     []*gen.Query
 	ladder      []gen.Unit
 	ds          *docSet
@@ -24,11 +26,13 @@ type c04Job struct {
 	nq          int // number of query units
 }
 
-const c04Chunk = 8
+const c04Chunk = 2
 
 func newC04(tier string) run.Job {
 	j := &c04Job{env: impl.NewEnv()}
 	j.queries = append(j.queries, gen.Atoms()...)
+	j.nAtoms = len(j.queries)
+	j.tier = tier
 	for _, cb := range gen.Pairs(gen.ReducedAtoms()) {
 		j.queries = append(j.queries, cb.Q)
 	}
@@ -64,7 +68,7 @@ func newC04(tier string) run.Job {
 	j.ds = &docSet{modes: modes}
 	nd := len(gen.Docs(spec4))
 	for i, d := range append(append(gen.Docs(spec4), gen.WideDocs()...), gen.BigDocs()...) {
-		j.big = append(j.big, i < nd && gen.Nodes(d) >= 5)
+		j.big = append(j.big, (i < nd && gen.Nodes(d) >= 5) || i >= nd) // the depth-3 expressions skip the 5-node, wide and big documents
 		j.ds.text = append(j.ds.text, gen.JSON(d))
 		for _, m := range modes {
 			cp := gen.Clone(d)
@@ -130,8 +134,13 @@ func (j *c04Job) RunUnit(i int, c *run.Ctx) {
 		if hi > len(j.queries) {
 			hi = len(j.queries)
 		}
-		for _, q := range j.queries[lo:hi] {
-			paths = append(paths, c04Paths(q)...)
+		for qi, q := range j.queries[lo:hi] {
+			ps := c04Paths(q)
+			if j.tier != "thorough" && lo+qi >= j.nAtoms {
+				// composite expressions: five of the eight positions in the quick tier
+				ps = []*gen.Path{ps[0], ps[1], ps[3], ps[4], ps[7]}
+			}
+			paths = append(paths, ps...)
 		}
 	} else {
 		paths = j.ladder[i-j.nq].Paths()
@@ -233,7 +242,7 @@ func init() {
 			"the clause about sharing one document between goroutines is explored by C06",
 		},
 		Bounds: map[string]string{
-			"quick":    "every atom (219), every A&&B / A||B over 24 atoms (1152) and 5 depth-3 shapes over 5 atoms (625) as a filter in 8 positions ($[?], $.a[?], $.*[?], $..[?], $[?].a, $[?][?(@.a)], $[0][?], $.c[?]); plus all paths of <=2 steps over the 50-step alphabet (functions after <=1 step); every document of <=4 nodes (scalars {1,\"a\",null}), the wide and member documents, plus 48 containers of 2..3 members that all / partly / never have the operand members; both decodings; plain and accessor mode; after every call the document of the previous call is checked too",
+			"quick":    "every atom (219), every A&&B / A||B over 24 atoms (1152) and 5 depth-3 shapes over 5 atoms (625) as a filter in 8 positions for the atoms and 5 for the composites ($[?], $.a[?], $..[?], $[?].a, $.c[?]; also $.*[?], $[?][?(@.a)], $[0][?] for the atoms and in the thorough tier); plus all paths of <=2 steps over the 50-step alphabet (functions after <=1 step); every document of <=4 nodes (scalars {1,\"a\",null}), the wide and member documents, plus 48 containers of 2..3 members that all / partly / never have the operand members; both decodings; plain and accessor mode; after every call the document of the previous call is checked too",
 			"thorough": "depth-3 shapes over 8 atoms (2560) on the quick documents; atoms, pairs and ladder paths on every document of <=5 nodes in both decodings",
 		},
 		New: newC04,
